@@ -29,6 +29,19 @@ use std::{
 use tokio::io::{AsyncRead, AsyncWrite, ReadBuf};
 
 const NPEERS: usize = 4;
+/// Fallback protocol names, by the number used in cases and traces (0 = the main protocol).
+const FALLBACK_NAMES: [&str; 2] = ["/verif/req/0", "/verif/req/00"];
+
+fn fallback_name(id: u64) -> Option<&'static str> {
+    if id == 0 { None } else { FALLBACK_NAMES.get(id as usize - 1).copied() }
+}
+
+fn fallback_id(name: &Option<litep2p::types::protocol::ProtocolName>) -> u64 {
+    match name {
+        None => 0,
+        Some(n) => FALLBACK_NAMES.iter().position(|x| **x == **n).map(|i| i as u64 + 1).unwrap_or(99),
+    }
+}
 
 // ------------------------------------------------------------------ byte carrier
 
@@ -210,6 +223,8 @@ struct World {
     chans: Vec<Chan>,
     hpend: Vec<usize>,
     feedback: Vec<(usize, futures::channel::oneshot::Receiver<()>)>,
+    /// `Some`: the REAL `RequestResponseProtocol::run` future, polled by hand (no `step`, no dumps)
+    run: Option<futures::future::BoxFuture<'static, ()>>,
 }
 
 impl World {
@@ -217,28 +232,69 @@ impl World {
         self.peers.iter().position(|x| x == p).map(|i| i as u64).unwrap_or(99)
     }
 
-    /// Single-steps the event loop until nothing is ready; collects what became observable.
+    /// Lets the event loop run until nothing is ready; collects what became observable.
+    /// Step mode: the loop is single-stepped (cfg-gated copy of the select arms, state dumps
+    /// available). Run mode: the real `run` future is polled by hand; it may park in the middle of
+    /// a handler when the event channel is full, so events are drained between polls until a poll
+    /// brings nothing new.
     async fn settle(&mut self, events: &mut Vec<Vec<u64>>) {
-        for _ in 0..10_000 {
-            match self.proto.step().await {
-                VerifStep::Idle | VerifStep::Exit => break,
-                _ => {}
+        if self.run.is_none() {
+            for _ in 0..10_000 {
+                match self.proto.step().await {
+                    VerifStep::Idle | VerifStep::Exit => break,
+                    _ => {}
+                }
+            }
+            self.collect(events);
+            return;
+        }
+        let mut quiet = 0;
+        for _ in 0..100_000 {
+            if let Some(run) = self.run.as_mut() {
+                let _ = futures::poll!(run.as_mut());
+            }
+            // only the user side is drained while the loop may be parked in a handler; the scripted
+            // connections read their command channels after the loop has come to rest, as in step mode
+            let before = events.len();
+            self.collect_user(events);
+            if events.len() == before {
+                quiet += 1;
+                if quiet >= 3 {
+                    break;
+                }
+            } else {
+                quiet = 0;
             }
         }
+        self.collect(events);
+    }
+
+    fn collect(&mut self, events: &mut Vec<Vec<u64>>) {
+        self.collect_user(events);
+        self.collect_transport(events);
+    }
+
+    fn collect_user(&mut self, events: &mut Vec<Vec<u64>>) {
         while let Some(Some(ev)) = self.handle.next().now_or_never() {
             match ev {
-                RequestResponseEvent::ResponseReceived { request_id, response, .. } => {
+                RequestResponseEvent::ResponseReceived { request_id, response, fallback, .. } => {
                     let (len, tag) = describe(&response);
                     events.push(vec![2, request_id.verif_as_usize() as u64, len, tag]);
+                    if fallback.is_some() {
+                        events.push(vec![9, request_id.verif_as_usize() as u64, fallback_id(&fallback)]);
+                    }
                 }
                 RequestResponseEvent::RequestFailed { request_id, error, .. } => {
                     events.push(vec![3, request_id.verif_as_usize() as u64, error_code(&error)]);
                 }
-                RequestResponseEvent::RequestReceived { peer, request_id, request, .. } => {
+                RequestResponseEvent::RequestReceived { peer, request_id, request, fallback } => {
                     let (len, tag) = describe(&request);
                     let irid = request_id.verif_as_usize();
                     self.hpend.push(irid);
                     events.push(vec![4, irid as u64, self.peer_index(&peer), len, tag]);
+                    if fallback.is_some() {
+                        events.push(vec![10, irid as u64, fallback_id(&fallback)]);
+                    }
                 }
             }
         }
@@ -251,10 +307,14 @@ impl World {
             }
         }
         self.feedback = waiting;
+    }
+
+    fn collect_transport(&mut self, events: &mut Vec<Vec<u64>>) {
         for i in 0..self.peers.len() {
             if self.connected[i] {
                 for sid in self.proto.take_open_requests(self.peers[i]) {
                     self.opens.push((sid, i));
+                    events.push(vec![8, sid as u64, i as u64]);
                 }
             }
         }
@@ -309,21 +369,47 @@ fn nth_mod<T: Copy>(k: u64, l: &[T]) -> Option<T> {
     }
 }
 
-async fn run_ops(c: &[u64]) -> Option<Vec<u64>> {
+/// What one stimulus made observable.
+struct StepRec {
+    target: Option<u64>,
+    events: Vec<Vec<u64>>,
+    dump: Vec<u64>,
+}
+
+/// How the protocol object is driven: `None` = single-stepped copy of the loop with dumps;
+/// `Some(channels)` = the real `run` future, optionally with small event / command channels.
+type Mode = Option<Option<(usize, usize)>>;
+
+/// Returns what every stimulus made observable and, for the stimuli that make two things ready
+/// at the same instant, which one the implementation looked at first.
+async fn run_ops(c: &[u64], mode: Mode) -> Option<(Vec<StepRec>, Vec<u64>)> {
     let (max_inb, ndial, max_size) = (*c.first()?, *c.get(1)?, *c.get(2)?);
-    let nops = *c.get(3)? as usize;
-    if max_size > 1 << 20 {
+    let (selfp, ccap) = (*c.get(3)?, *c.get(4)?);
+    let nops = *c.get(5)? as usize;
+    if max_size > 1 << 20 || ccap > 4096 {
         return None;
     }
-    let peers: Vec<PeerId> = (0..NPEERS).map(|_| PeerId::random()).collect();
+    let channels = match mode {
+        Some(Some((event_cap, _))) => Some((event_cap, if ccap > 0 { ccap as usize } else { 4096 })),
+        _ => if ccap > 0 { Some((4096, ccap as usize)) } else { None },
+    };
+    let mut choices: Vec<u64> = Vec::new();
+    let mut peers: Vec<PeerId> = (0..NPEERS).map(|_| PeerId::random()).collect();
     let dialable: Vec<PeerId> = peers.iter().take((ndial as usize).min(NPEERS)).cloned().collect();
-    let (proto, handle) = VerifProtocol::new(
+    let (mut proto, handle) = VerifProtocol::new_full(
         max_size as usize,
         None,
         if max_inb == 0 { None } else { Some((max_inb - 1) as usize) },
         &dialable,
+        &FALLBACK_NAMES,
+        channels,
     );
+    if selfp != 0 {
+        peers[NPEERS - 1] = proto.local_peer();
+    }
+    let run = if mode.is_some() { Some(proto.take_run()) } else { None };
     let mut w = World {
+        run,
         peers,
         proto,
         handle,
@@ -333,24 +419,104 @@ async fn run_ops(c: &[u64]) -> Option<Vec<u64>> {
         hpend: Vec::new(),
         feedback: Vec::new(),
     };
-    let mut out = vec![1u64];
-    let mut i = 4;
+    let mut out: Vec<StepRec> = Vec::new();
+    let mut i = 6;
     for _ in 0..nops {
         let tag = *c.get(i)?;
         let a = |k: usize| c.get(i + k).copied();
         let mut events: Vec<Vec<u64>> = Vec::new();
         let mut target: Option<u64> = None;
+        let mut race: Option<u64> = None;
+        let mut race_rid = 0u64;
         let width;
         match tag {
             0 => {
-                width = 5;
+                width = 8;
                 let (p, dial, len, t) = (a(1)? as usize, a(2)?, a(3)?, a(4)?);
-                if p >= NPEERS || len > 1 << 20 {
+                let (fname, flen, ftag) = (a(5)?, a(6)?, a(7)?);
+                if p >= NPEERS || len > 1 << 20 || flen > 1 << 20 || fname > 2 {
                     return None;
                 }
                 let opt = if dial != 0 { DialOptions::Dial } else { DialOptions::Reject };
-                let rid = w.handle.try_send_request(w.peers[p], payload(len, t), opt).ok()?;
+                let rid = match fallback_name(fname) {
+                    None => w.handle.try_send_request(w.peers[p], payload(len, t), opt).ok()?,
+                    Some(name) => w
+                        .handle
+                        .try_send_request_with_fallback(
+                            w.peers[p],
+                            payload(len, t),
+                            (litep2p::types::protocol::ProtocolName::from(name), payload(flen, ftag)),
+                            opt,
+                        )
+                        .ok()?,
+                };
                 events.push(vec![1, rid.verif_as_usize() as u64]);
+            }
+            18 => {
+                // a burst of try_send_request: the command channel takes what it has room for
+                width = 6;
+                let (p, dial, n, len, t) = (a(1)? as usize, a(2)?, a(3)?, a(4)?, a(5)?);
+                if p >= NPEERS || len > 1 << 20 || n > 64 {
+                    return None;
+                }
+                for _ in 0..n {
+                    let opt = if dial != 0 { DialOptions::Dial } else { DialOptions::Reject };
+                    if let Ok(rid) = w.handle.try_send_request(w.peers[p], payload(len, t), opt) {
+                        events.push(vec![1, rid.verif_as_usize() as u64]);
+                    }
+                }
+            }
+            19 => {
+                // the remote answers and the clock passes the deadline before the loop runs again
+                width = 6;
+                let (k, len, t, dt) = (a(1)?, a(2)?, a(3)?, a(4)?);
+                if dt > 10_000_000 || len > 1 << 20 {
+                    return None;
+                }
+                if !w.chans.is_empty() {
+                    let ci = (k % w.chans.len() as u64) as usize;
+                    target = Some(ci as u64);
+                    let ch = &mut w.chans[ci];
+                    if ch.out && ch.seen {
+                        ch.carrier.feed(&frame(len, t));
+                    }
+                }
+                tokio::time::advance(Duration::from_millis(dt)).await;
+                race = Some(19);
+            }
+            20 => {
+                // the remote answers and the user cancels before the loop runs again
+                width = 6;
+                let (k, len, t, rid) = (a(1)?, a(2)?, a(3)?, a(4)?);
+                if len > 1 << 20 {
+                    return None;
+                }
+                if !w.chans.is_empty() {
+                    let ci = (k % w.chans.len() as u64) as usize;
+                    target = Some(ci as u64);
+                    let ch = &mut w.chans[ci];
+                    if ch.out && ch.seen {
+                        ch.carrier.feed(&frame(len, t));
+                    }
+                }
+                w.handle.cancel_request(RequestId::from(rid as usize)).await;
+                race = Some(20);
+            }
+            21 => {
+                // the user cancels and the clock passes the deadline before the loop runs again
+                width = 4;
+                let (rid, dt) = (a(1)?, a(2)?);
+                if dt > 10_000_000 {
+                    return None;
+                }
+                w.handle.cancel_request(RequestId::from(rid as usize)).await;
+                tokio::time::advance(Duration::from_millis(dt)).await;
+                race = Some(21);
+                race_rid = rid;
+            }
+            22 => {
+                width = 1;
+                w.proto.drop_manager();
             }
             1 => {
                 width = 2;
@@ -398,14 +564,17 @@ async fn run_ops(c: &[u64]) -> Option<Vec<u64>> {
                 w.proto.inject_dial_failure(w.peers[p]);
             }
             5 => {
-                width = 3;
-                let (k, gate) = (a(1)?, a(2)?.min(2) as u8);
+                width = 4;
+                let (k, gate, neg) = (a(1)?, a(2)?.min(2) as u8, a(3)?);
+                if neg > 2 {
+                    return None;
+                }
                 if let Some((sid, p)) = nth_mod(k, &w.opens) {
                     target = Some(sid as u64);
                     w.opens.retain(|(s, _)| *s != sid);
                     let carrier = Carrier::new(gate);
                     w.chans.push(Chan { carrier: carrier.clone(), out: true, seen: false });
-                    w.proto.inject_substream_opened(w.peers[p], Some(sid), Box::new(carrier));
+                    w.proto.inject_substream_opened_with_fallback(w.peers[p], Some(sid), Box::new(carrier), fallback_name(neg));
                 }
             }
             6 => {
@@ -468,16 +637,16 @@ async fn run_ops(c: &[u64]) -> Option<Vec<u64>> {
                 tokio::time::advance(Duration::from_millis(dt)).await;
             }
             13 => {
-                width = 3;
-                let (p, gate) = (a(1)? as usize, a(2)?.min(2) as u8);
-                if p >= NPEERS {
+                width = 4;
+                let (p, gate, neg) = (a(1)? as usize, a(2)?.min(2) as u8, a(3)?);
+                if p >= NPEERS || neg > 2 {
                     return None;
                 }
                 if w.connected[p] {
                     target = Some(w.chans.len() as u64);
                     let carrier = Carrier::new(gate);
                     w.chans.push(Chan { carrier: carrier.clone(), out: false, seen: false });
-                    w.proto.inject_substream_opened(w.peers[p], None, Box::new(carrier));
+                    w.proto.inject_substream_opened_with_fallback(w.peers[p], None, Box::new(carrier), fallback_name(neg));
                 }
             }
             15 => {
@@ -519,35 +688,124 @@ async fn run_ops(c: &[u64]) -> Option<Vec<u64>> {
         i += width;
         w.settle(&mut events).await;
         events.sort();
-        out.push(target.map(|t| t + 1).unwrap_or(0));
-        out.push(events.len() as u64);
-        for e in events {
-            out.extend(e);
+        match race {
+            // which of the two ready things did the implementation look at first?
+            // 19, 20: the answer was consumed => the response; 21: a Timeout for that id => the clock
+            // (an oversize answer shows up as a read failure, code 4, instead of a response)
+            Some(19) | Some(20) => choices.push(if events.iter().any(|e| e[0] == 2 || (e[0] == 3 && e[2] == 4)) { 0 } else { 1 }),
+            Some(_) => choices.push(if events.iter().any(|e| e[0] == 3 && e[1] == race_rid && e[2] == 6) { 1 } else { 0 }),
+            None => {}
         }
-        w.dump(&mut out);
+        let mut dump = Vec::new();
+        if w.run.is_none() {
+            w.dump(&mut dump);
+        }
+        out.push(StepRec { target, events, dump });
     }
     if i != c.len() {
         return None;
     }
-    Some(out)
+    Some((out, choices))
 }
 
-fn run_case(c: &[u64]) -> Vec<u64> {
-    let c = c.to_vec();
-    catch_unwind(AssertUnwindSafe(move || {
-        let rt = tokio::runtime::Builder::new_current_thread()
-            .enable_all()
-            .start_paused(true)
-            .build()
-            .unwrap();
-        // unconstrained: tokio's cooperative budget would otherwise make a ready channel or timer
-        // report Pending after ~128 operations within this single never-yielding poll, which the
-        // non-blocking probes of the harness (now_or_never, the idle arm of step) would mistake
-        // for "nothing ready"
-        rt.block_on(tokio::task::unconstrained(run_ops(&c)))
-    }))
-    .unwrap_or(Some(vec![PANIC_MARK]))
-    .unwrap_or(vec![0])
+fn run_mode(c: &[u64], mode: Mode) -> Option<(Vec<StepRec>, Vec<u64>)> {
+    let rt = tokio::runtime::Builder::new_current_thread()
+        .enable_all()
+        .start_paused(true)
+        .build()
+        .unwrap();
+    // unconstrained: tokio's cooperative budget would otherwise make a ready channel or timer
+    // report Pending after ~128 operations within this single never-yielding poll, which the
+    // non-blocking probes of the harness (now_or_never, the idle arm of step) would mistake
+    // for "nothing ready"
+    rt.block_on(tokio::task::unconstrained(run_ops(c, mode)))
+}
+
+/// Runs `mode` until the implementation's choices at the racing stimuli are the given ones
+/// (they are random: tokio's select! is unbiased).
+fn run_until(c: &[u64], mode: Mode, want: &[u64]) -> Option<(Vec<StepRec>, bool)> {
+    let mut last = None;
+    for _ in 0..40 {
+        let (steps, choices) = run_mode(c, mode)?;
+        if choices == want {
+            return Some((steps, true));
+        }
+        last = Some(steps);
+    }
+    last.map(|s| (s, false))
+}
+
+/// Writes the observed choices into the case (last field of the racing stimuli).
+fn with_choices(c: &[u64], choices: &[u64]) -> Vec<u64> {
+    let mut c = c.to_vec();
+    let width = |tag: u64| -> usize {
+        match tag {
+            0 => 8, 1 => 2, 2 => 4, 3 | 4 => 2, 5 => 4, 6 => 3, 7 | 8 | 10 | 11 | 12 | 16 | 17 => 2,
+            9 | 14 => 4, 13 => 4, 15 => 5, 18 => 6, 19 | 20 => 6, 21 => 4, 22 => 1, _ => usize::MAX,
+        }
+    };
+    let mut i = 6;
+    let mut k = 0;
+    while i < c.len() {
+        let w = width(c[i]);
+        if w == usize::MAX || i + w > c.len() {
+            break;
+        }
+        if matches!(c[i], 19 | 20 | 21) {
+            if let Some(ch) = choices.get(k) {
+                c[i + w - 1] = *ch;
+            }
+            k += 1;
+        }
+        i += w;
+    }
+    c
+}
+
+/// Every case is run three times on fresh protocol objects:
+///  A. the REAL `RequestResponseProtocol::run` future polled by hand — its events are the ones
+///     printed (so a change inside `run` is seen);
+///  B. the single-stepped copy of the loop — it supplies the bookkeeping dumps;
+///  C. the real `run` with an event channel and a command channel of capacity 1, the loop parking
+///     inside handlers until the user drains — must show the same events as A ("nothing lost").
+/// If B or C disagrees with A on what one stimulus made observable, a marker event `99 which` is
+/// added for that stimulus (the model never prints one, so the case shows up as a disagreement);
+/// if it is C, C's events are printed instead of A's, so that the oracle judges them too.
+fn run_case(c: &[u64]) -> (Vec<u64>, Vec<u64>) {
+    let c0 = c.to_vec();
+    let r = catch_unwind(AssertUnwindSafe(move || {
+        let (a, choices) = run_mode(&c0, Some(None))?;
+        let c1 = with_choices(&c0, &choices);
+        let (b, b_ok) = run_until(&c0, None, &choices)?;
+        let (k, k_ok) = run_until(&c0, Some(Some((1, 1))), &choices)?;
+        if a.len() != b.len() || a.len() != k.len() {
+            return Some((c1, vec![PANIC_MARK, 1]));
+        }
+        let mut out = vec![1u64];
+        for ((a, b), k) in a.iter().zip(b.iter()).zip(k.iter()) {
+            let same = |x: &StepRec| x.target == a.target && x.events == a.events;
+            let shown = if !same(k) && k_ok { k } else { a };
+            let mut events = shown.events.clone();
+            if !same(b) {
+                events.push(vec![99, 1]);
+            }
+            if !same(k) {
+                events.push(vec![99, 2]);
+            }
+            out.push(shown.target.map(|t| t + 1).unwrap_or(0));
+            out.push(events.len() as u64);
+            for e in events.iter() {
+                out.extend(e.iter().copied());
+            }
+            out.extend(b.dump.iter().copied());
+        }
+        Some((c1, out))
+    }));
+    match r {
+        Ok(Some(x)) => x,
+        Ok(None) => (c.to_vec(), vec![0]),
+        Err(_) => (c.to_vec(), vec![PANIC_MARK]),
+    }
 }
 
 // ------------------------------------------------------------------ generator
@@ -562,8 +820,11 @@ fn gen_guided(rng: &mut Rng, thorough: bool) -> Vec<u64> {
     let max_size = rng.pick(&[16u64, 300, 1024]);
     let npeers = rng.range(1, 3) as usize;
     let nops = if thorough { rng.range(10, 120) } else { rng.range(6, 50) };
-    let mut c = vec![max_inb, ndial, max_size, nops];
+    let selfp = if rng.chance(15) { 1 } else { 0 };
+    let ccap = rng.pick(&[0u64, 0, 0, 1, 2, 3]);
+    let mut c = vec![max_inb, ndial, max_size, selfp, ccap, nops];
     let lens = [0u64, 1, 2, 7, max_size - 1, max_size];
+    let mut races = 0;
     let mut connected = vec![false; npeers];
     let mut dialing = vec![0u64; npeers];
     let mut opens = 0u64;
@@ -581,12 +842,19 @@ fn gen_guided(rng: &mut Rng, thorough: bool) -> Vec<u64> {
         let roll = rng.below(100);
         let op: Vec<u64> = if roll < 22 {
             ids += 1;
-            if connected[p] {
+            let (fname, flen, ftag) = if rng.chance(30) { (rng.range(1, 2), rng.pick(&lens), rng.below(256)) } else { (0, 0, 0) };
+            if rng.chance(8) {
+                let n = rng.range(2, 5);
+                ids += n - 1;
+                let took = n.min(if ccap == 0 { 4096 } else { ccap });
+                if connected[p] { opens += took; } else { dialing[p] += took; }
+                vec![18, p as u64, 1, n, len, tag]
+            } else if connected[p] {
                 opens += 1;
-                vec![0, p as u64, rng.below(2), len, tag]
+                vec![0, p as u64, rng.below(2), len, tag, fname, flen, ftag]
             } else {
                 dialing[p] += 1;
-                vec![0, p as u64, if rng.chance(85) { 1 } else { 0 }, len, tag]
+                vec![0, p as u64, if rng.chance(85) { 1 } else { 0 }, len, tag, fname, flen, ftag]
             }
         } else if roll < 32 {
             let cap = if dialing[p] >= 2 && rng.chance(50) { rng.range(1, dialing[p] - 1) } else { rng.pick(&[0u64, 0, 0, 1, 2]) };
@@ -603,9 +871,18 @@ fn gen_guided(rng: &mut Rng, thorough: bool) -> Vec<u64> {
                 blocked.push(nchans);
             }
             nchans += 1;
-            vec![5, rng.below(opens + 1), gate]
+            vec![5, rng.below(opens + 1), gate, rng.pick(&[0u64, 0, 0, 1, 2])]
         } else if roll < 62 && !out_chans.is_empty() {
-            vec![9, rng.pick(&out_chans), len, tag]
+            if races < 2 && rng.chance(15) {
+                races += 1;
+                match rng.below(3) {
+                    0 => vec![19, rng.pick(&out_chans), len, tag, rng.pick(&[5100u64, 2600]), 0],
+                    1 => vec![20, rng.pick(&out_chans), len, tag, rng.below(ids + 1), 0],
+                    _ => vec![21, rng.below(ids + 1), rng.pick(&[5100u64, 2600]), 0],
+                }
+            } else {
+                vec![9, rng.pick(&out_chans), len, tag]
+            }
         } else if roll < 66 && !blocked.is_empty() {
             let i = rng.below(blocked.len() as u64) as usize;
             vec![if rng.chance(80) { 7 } else { 8 }, blocked.swap_remove(i)]
@@ -631,7 +908,7 @@ fn gen_guided(rng: &mut Rng, thorough: bool) -> Vec<u64> {
                 blocked.push(nchans);
             }
             nchans += 1;
-            vec![13, p as u64, gate]
+            vec![13, p as u64, gate, rng.pick(&[0u64, 0, 1, 2])]
         } else if roll < 92 && !in_chans.is_empty() {
             waiting += 1;
             vec![14, rng.pick(&in_chans), len, tag]
@@ -643,6 +920,8 @@ fn gen_guided(rng: &mut Rng, thorough: bool) -> Vec<u64> {
             vec![16, rng.below(waiting + 1)]
         } else if !out_chans.is_empty() {
             vec![rng.pick(&[10u64, 11]), rng.pick(&out_chans)]
+        } else if rng.chance(20) {
+            vec![22]
         } else {
             vec![17, p as u64]
         };
@@ -660,7 +939,10 @@ fn gen_case(rng: &mut Rng, thorough: bool) -> Vec<u64> {
     let max_size = rng.pick(&[16u64, 16, 300, 1024]);
     let npeers = rng.range(1, NPEERS as u64);
     let nops = if thorough { rng.range(5, 120) } else { rng.range(3, 45) };
-    let mut c = vec![max_inb, ndial, max_size, nops];
+    let selfp = if rng.chance(20) { 1 } else { 0 };
+    let ccap = rng.pick(&[0u64, 0, 0, 1, 2]);
+    let mut c = vec![max_inb, ndial, max_size, selfp, ccap, nops];
+    let mut races = 0;
     let mut sent = 0u64; // request ids are allocated in order: a good guess for cancel targets
     let lens = [0u64, 1, 2, 7, max_size - 1, max_size, max_size + 1];
     let style = rng.below(4);
@@ -675,28 +957,47 @@ fn gen_case(rng: &mut Rng, thorough: bool) -> Vec<u64> {
         let op: Vec<u64> = match (style, roll) {
             (1, 0..=29) | (_, 0..=19) => {
                 sent += 1;
-                vec![0, p, if style == 1 || rng.chance(60) { 1 } else { 0 }, len, tag]
+                if rng.chance(8) {
+                    let n = rng.range(2, 4);
+                    sent += n - 1;
+                    vec![18, p, 1, n, len, tag]
+                } else if rng.chance(25) {
+                    vec![0, p, if style == 1 || rng.chance(60) { 1 } else { 0 }, len, tag, rng.range(1, 2), rng.pick(&lens), rng.below(256)]
+                } else {
+                    vec![0, p, if style == 1 || rng.chance(60) { 1 } else { 0 }, len, tag, 0, 0, 0]
+                }
             }
             (_, 20..=24) => vec![1, if sent == 0 { 0 } else { rng.below(sent + 2) }],
             (_, 25..=34) => vec![2, p, if rng.chance(10) { 1 } else { 0 }, rng.pick(&[0u64, 0, 0, 1, 1, 2, 3])],
             (_, 35..=39) => vec![3, p],
             (_, 40..=43) => vec![4, p],
-            (_, 44..=55) => vec![5, k, gate],
+            (_, 44..=55) => vec![5, k, gate, rng.pick(&[0u64, 0, 0, 1, 2])],
             (_, 56..=58) => vec![6, k, rng.below(2)],
             (_, 59..=63) => vec![7, k],
             (_, 64..=65) => vec![8, k],
-            (_, 66..=74) => vec![9, k, len, tag],
+            (_, 66..=74) => {
+                if races < 2 && rng.chance(12) {
+                    races += 1;
+                    match rng.below(3) {
+                        0 => vec![19, k, len, tag, rng.pick(&[5100u64, 1700]), 0],
+                        1 => vec![20, k, len, tag, rng.below(sent + 1), 0],
+                        _ => vec![21, rng.below(sent + 1), rng.pick(&[5100u64, 2600]), 0],
+                    }
+                } else {
+                    vec![9, k, len, tag]
+                }
+            }
             (_, 75..=76) => vec![10, k],
             (_, 77..=78) => vec![11, k],
             (_, 79..=82) => vec![12, rng.pick(&[1700u64, 2600, 5100, 300])],
             (2, 83..=90) | (_, 83..=86) => {
                 sent += 1; // inbound ids come from the same allocator
-                vec![13, p, gate]
+                vec![13, p, gate, rng.pick(&[0u64, 0, 1, 2])]
             }
             (_, 87..=92) => vec![14, k, len, tag],
             (_, 93..=96) => vec![15, k, len, tag, rng.below(2)],
             (_, 97..=98) => vec![16, k],
-            _ => vec![17, p],
+            _ => if rng.chance(25) { vec![22] } else { vec![17, p] },
         };
         c.extend(op);
     }
@@ -717,7 +1018,8 @@ pub fn main(args: &Args) {
         stored = read_cases(Path::new(d));
     }
     for c in stored.iter() {
-        out.emit(c, &run_case(c));
+        let (c, t) = run_case(c);
+        out.emit(&c, &t);
     }
     if args.str("replay").is_some() {
         return;
@@ -725,6 +1027,7 @@ pub fn main(args: &Args) {
     for _ in 0..ncases {
         let mut r = rng.fork();
         let c = gen_case(&mut r, thorough);
-        out.emit(&c, &run_case(&c));
+        let (c, t) = run_case(&c);
+        out.emit(&c, &t);
     }
 }
